@@ -5,7 +5,7 @@
    correspondence run compares with walk_stack — equals the documented result [cfi_spec_real] followed by the
    hand-over of <arch>::get_caller_frame. *)
 From Coq Require Import Lia.
-From RM Require Import C06.Model C06.GenModel C06.Proofs C06.Proofs2 C06.Proofs3 C06.Proofs4 C06.Proofs5 C06.Proofs6
+From RM Require Import C08.Model C06.Model C06.GenModel C06.Proofs C06.Proofs2 C06.Proofs3 C06.Proofs4 C06.Proofs5 C06.Proofs6
                        C06.Proofs7 C06.Driver C06.GenDriver C06.ArchDriver Gen.UnwindConsts Gen.CfiOps.
 Open Scope Z_scope.
 
@@ -188,12 +188,14 @@ Theorem real_end_to_end : forall k ctx valid stackbase stack initaddr initsize i
   let E := real_env2 k ctx valid stackbase stack ip in
   all_documented r (ip - 1073741824) -> real_documented_nonaliasing a r (ip - 1073741824) ->
   run_real2_gen k ctx valid stackbase stack initaddr initsize init deltas =
-    if negb (match valid with None => true | Some which => mem_b (a_sp a) which end)
+    if negb (stack_ok stackbase stack)
+       || negb (match valid with None => true | Some which => mem_b (a_sp a) which end)
        || (ip <? 1073741824) || (1073741824 + 65536 <=? ip) then out_none
     else frame_of_spec k a sp (cfi_spec_real a E r (ip - 1073741824) (real_init a ctx valid)).
 Proof.
   intros k ctx valid sb st ia isz init deltas Wc Ws a ip sp r E Hd Hn.
   unfold run_real2_gen. fold a. fold ip. fold sp. fold E. fold r.
+  destruct (negb (stack_ok sb st)); [reflexivity|]. cbn [orb].
   destruct (negb _ || _ || _); [reflexivity|].
   pose proof (gen_real_walk_refines_spec a Debug E r (ip - 1073741824) (real_init a ctx valid)
                 (real_env2_wf k ctx valid sb st ip Wc Ws) Hd Hn) as R.
@@ -222,10 +224,12 @@ Qed.
 
 (* the old entry point is the new one on the old architectures *)
 Lemma run_real2_old : forall k ctx valid stackbase stack initaddr initsize init deltas, k < 3 ->
+  stack_ok stackbase stack = true ->
   run_real2_gen k ctx valid stackbase stack initaddr initsize init deltas =
   run_real_gen k ctx valid stackbase stack initaddr initsize init deltas.
 Proof.
-  intros k ctx valid sb st ia isz init deltas Hk. unfold run_real2_gen, run_real_gen, real_env2, post_real2, arch_of2.
+  intros k ctx valid sb st ia isz init deltas Hk Hst. unfold run_real2_gen, run_real_gen, real_env2, post_real2, arch_of2.
+  rewrite Hst. cbn [negb].
   replace (k =? 3) with false by (symmetry; apply Z.eqb_neq; lia).
   replace (k =? 4) with false by (symmetry; apply Z.eqb_neq; lia).
   replace (k =? 5) with false by (symmetry; apply Z.eqb_neq; lia).
@@ -279,4 +283,17 @@ Proof.
     rewrite beq_refl. split; [reflexivity|]. split; [reflexivity|].
     intros c' Hne. apply beq_neq in Hne. rewrite Hne. split; reflexivity.
   - right. apply Z.ltb_ge. exact F.
+Qed.
+
+(* a stack memory without a range (empty, or base + size beyond u64) ends the walk before any frame is unwound *)
+Lemma no_stack_no_frame : forall k ctx valid stackbase stack initaddr initsize init deltas,
+  (blen stack = 0 \/ two64 <= stackbase + blen stack) ->
+  run_real2_gen k ctx valid stackbase stack initaddr initsize init deltas = out_none.
+Proof.
+  intros k ctx valid sb st ia isz init deltas H. unfold run_real2_gen.
+  assert (E : stack_ok sb st = false).
+  { unfold stack_ok, mk_range, checked_add. destruct (blen st =? 0) eqn:E0; [reflexivity|].
+    destruct H as [H|H]; [apply Z.eqb_neq in E0; contradiction|].
+    destruct (sb + blen st <? 2 ^ 64) eqn:E1; [|reflexivity]. apply Z.ltb_lt in E1. unfold two64 in H. lia. }
+  rewrite E. reflexivity.
 Qed.
